@@ -592,3 +592,31 @@ def ref_target_fields(fn, operand, depth=0):
         if "use" in rv:
             return ref_target_fields(fn, rv["use"], depth + 1)
     return []
+
+
+def upvar_resolve(F, body, operand, depth=0):
+    """(body', operand'): when the operand of a closure body is (only) a captured variable, the enclosing function's local of that
+    name; otherwise the operand itself"""
+    from ..flow import origins
+    if body.kind != "closure" or depth > 3:
+        return body, operand
+    os_ = list(origins(body, operand))
+    if len(os_) != 1 or os_[0][0][0] != "param" or os_[0][0][1] != 1 or not os_[0][1]:
+        return body, operand
+    idx = str(os_[0][1][0])
+    name = None
+    for uv in body.mir.get("upvars", []):
+        fs = [x for x in uv["place"]["p"] if isinstance(x, dict) and "f" in x]
+        if fs and str(fs[0]["f"]) == idx:
+            name = uv["name"]
+    parent = F.fn(body.d["parent"]) if name else None
+    if parent is None:
+        return body, operand
+    for i, loc in enumerate(parent.locals):
+        if loc.get("name") == name:
+            return upvar_resolve(F, parent, {"copy": {"l": i, "p": []}}, depth + 1)
+    if parent.kind == "closure":
+        for uv in parent.mir.get("upvars", []):
+            if uv["name"] == name:
+                return upvar_resolve(F, parent, {"copy": uv["place"]}, depth + 1)
+    return body, operand
